@@ -74,6 +74,20 @@ func (mls *MetaLeaseSet) Verify() error {
 // Otherwise, the Destination's signing public key is returned.
 func (mls *MetaLeaseSet) signingPublicKeyForVerification() (types.SigningPublicKey, error) {
 	if mls.HasOfflineKeys() && mls.offlineSignature != nil {
+		// The transient key may only speak for this MetaLeaseSet if the Destination's signing key signed it:
+		// verify the offline signature block before trusting the transient key.
+		destKey, err := mls.destination.SigningPublicKey()
+		if err != nil {
+			return nil, oops.Errorf("failed to get signing public key from Destination: %w", err)
+		}
+		authorisingKey := destKey.Bytes()
+		authorised, err := mls.offlineSignature.VerifySignature(authorisingKey)
+		if err != nil {
+			return nil, oops.Errorf("failed to verify offline signature: %w", err)
+		}
+		if !authorised {
+			return nil, oops.Errorf("offline signature is not valid under the Destination's signing key")
+		}
 		// Use transient signing public key from offline signature
 		transientKeyBytes := mls.offlineSignature.TransientPublicKey()
 		transientSigType := mls.offlineSignature.TransientSigType()
